@@ -1,6 +1,7 @@
 #!/usr/bin/env python3
 
 import warnings
+from copy import deepcopy
 from typing import Optional
 
 import torch
@@ -70,6 +71,16 @@ class GridKernel(Kernel):
     def _clear_cache(self):
         if hasattr(self, "_cached_kernel_mat"):
             del self._cached_kernel_mat
+
+    def __deepcopy__(self, memo):
+        # The cached grid covariance is derived from the parameters (and may hold non-leaf tensors, which cannot be
+        # deep-copied): a copy starts without it and recomputes it on demand.
+        result = self.__class__.__new__(self.__class__)
+        memo[id(self)] = result
+        for name, value in self.__dict__.items():
+            if name != "_cached_kernel_mat":
+                result.__dict__[name] = deepcopy(value, memo)
+        return result
 
     def register_buffer_list(self, base_name, tensors):
         """Helper to register several buffers at once under a single base name"""
